@@ -24,6 +24,15 @@
           -> "dofstd <df> <vnlt_count>*ncells"
      merr <reinit> <F> <ncalls> { clear | invalid | set <nf id>*F (- | <tr id>*F) <fresh nf id, tr id>*F }*ncalls
           -> "merr none" | "merr <nf id> <tr id> ..." (F pairs); ids are numbers, 0 = the value 0.0
+     weight2 <nf> <tr> <re> <im>           -> "weight2 <nf^2 + tr^2 |m|^2 as coded>"   (exact rational)
+     chisqp <df> <x2> <value of exp(-x2/2)>  -> "chisqp <p>"   PvalueModel.chisq_pvalue with exp answered by the given value
+     pvstat <unknowns> <nf> <tr> <xlen> {re im}*xlen <nsys> { <neq> { <own m re im> <nterms> { <neg 0|1> <m: - | re im>
+            <s: - | re im> <v: - | re im> <xindex | -> }*nterms }*neq }*nsys ( - | <ncells> { <nstd> { <given><connected> re im }*nstd }*ncells )
+          -> "pvstat <chisq> <df> { <count> <sum re> <sum im> <sumsq> }*ncells"   PvalueModel.calc_stat, leak_of_samples, cell_samples
+     merra <F> <cal f>*F <frequencies_valid> <lo> <hi> <full_s_ok> <ntab> { <n> <fv>*n <ys>*n <values at the cal f>*F }*ntab
+           <ncalls> { <n> ( - | <fv>*n ) ( - | <nf>*n ) ( - | <tr>*n ) { <fresh nf> <fresh tr> }*F }*ncalls
+          -> "merra { r=<0|1> s=<none | nf,tr;nf,tr;...> }*ncalls"  return value and stored vector after every call
+             (C18MErrorModel.run_args / returns; the interpolation is answered from the table)
    Reals are exact rationals "p/q", complex numbers two reals. *)
 #include "glue.ml.inc"
 let toks = ref []
@@ -223,6 +232,80 @@ let () =
             | None -> Printf.printf "merr none\n"
             | Some v -> Printf.printf "merr%s\n"
                           (String.concat "" (List.map (fun (a, b) -> Printf.sprintf " %d %d" (int_of_nat a) (int_of_nat b)) v)))
+         | "weight2" ->
+           let nf = qc_of_string (next ()) in let tr = qc_of_string (next ()) in
+           let re = qc_of_string (next ()) in let im = qc_of_string (next ()) in
+           Printf.printf "weight2 %s\n" (string_of_qc (q_weight2 nf tr { qre = re; qim = im }))
+         | "chisqp" ->
+           let df = coqz_of_z (ZZ.of_string (next ())) in
+           let x2 = qc_of_string (next ()) in let ev = qc_of_string (next ()) in
+           let z = qc_of_string "0" in
+           Printf.printf "chisqp %s\n" (string_of_qc (q_chisq_pvalue (fun _ -> ev) (fun _ -> z) (fun _ -> z) z df x2))
+         | "pvstat" ->
+           let ni () = int_of_string (next ()) in
+           let qn () = qc_of_string (next ()) in
+           let cx () = let a = qn () in let b = qn () in { qre = a; qim = b } in
+           let ocx () = (match !toks with "-" :: r -> toks := r; None | _ -> Some (cx ())) in
+           let unk = ni () in let nf = qn () in let tr = qn () in
+           let xlen = ni () in let x = times xlen cx in
+           let nsys = ni () in
+           let systems = times nsys (fun () ->
+               let neq = ni () in
+               times neq (fun () ->
+                   let own = cx () in
+                   let nt = ni () in
+                   let terms = times nt (fun () ->
+                       let neg = b_of (next ()) in
+                       let m = ocx () in let s_ = ocx () in let v = ocx () in
+                       let xi = (match next () with "-" -> None | t -> Some (nat_of_int (int_of_string t))) in
+                       { t_neg = neg; t_m = m; t_s = s_; t_v = v; t_x = xi }) in
+                   { e_m = own; e_terms = terms })) in
+           let leak = (match !toks with
+               | "-" :: r -> toks := r; None
+               | _ -> let nc = ni () in
+                 Some (times nc (fun () ->
+                     let nstd = ni () in
+                     let stds = times nstd (fun () -> let t = next () in let m = cx () in ((t.[0] = '1', t.[1] = '1'), m)) in
+                     q_leak_of_samples (q_cell_samples stds)))) in
+           let (chisq, df) = q_calc_stat (nat_of_int unk) nf tr x systems leak in
+           Printf.printf "pvstat %s %s%s\n" (string_of_qc chisq) (ZZ.to_string (z_of_coqz df))
+             (match leak with None -> "" | Some cells ->
+                String.concat "" (List.map (fun l -> Printf.sprintf " %s %s %s" (ZZ.to_string (z_of_coqz l.l_count))
+                                              (string_of_qi l.l_sum) (string_of_qc l.l_sumsq)) cells))
+         | "merra" ->
+           let ni () = int_of_string (next ()) in
+           let qn () = qc_of_string (next ()) in
+           let f = ni () in
+           let calf = times f qn in
+           let fvalid = b_of (next ()) in let lo = qn () in let hi = qn () in let fullok = b_of (next ()) in
+           let key l = String.concat "," (List.map string_of_qc l) in
+           let ntab = ni () in
+           let tab = times ntab (fun () -> let n = ni () in let fv = times n qn in let ys = times n qn in
+                                  let vals = times f qn in ((key fv, key ys), vals)) in
+           let interp fv ys fq =
+             let vals = List.assoc (key fv, key ys) tab in
+             let rec find l v = (match l, v with
+                 | a :: r, b :: r' -> if string_of_qc a = string_of_qc fq then b else find r r'
+                 | _, _ -> failwith "interp: not a calibration frequency") in
+             find calf vals in
+           let env = { en_calf = calf; en_fvalid = fvalid; en_lo = lo; en_hi = hi; en_full_s_ok = fullok } in
+           let ncalls = ni () in
+           let opt n = (match !toks with "-" :: r -> toks := r; None | _ -> Some (times n qn)) in
+           let h = times ncalls (fun () ->
+               let n = ni () in
+               let fv = opt n in let nfv = opt n in let trv = opt n in
+               let fresh = times f (fun () -> let a = qn () in let b = qn () in (a, b)) in
+               (fresh, { a_fv = fv; a_n = nat_of_int n; a_nf = nfv; a_tr = trv })) in
+           let rec prefixes acc l = (match l with [] -> [] | a :: r -> let p = acc @ [a] in p :: prefixes p r) in
+           let out = List.map (fun p ->
+               let rets = q_merr_returns interp env p in
+               let r = List.nth rets (List.length rets - 1) in
+               let st = q_merr_run_args interp true env None p in
+               Printf.sprintf " r=%d s=%s" (if r then 1 else 0)
+                 (match st with None -> "none"
+                              | Some v -> String.concat ";" (List.map (fun (a, b) -> string_of_qc a ^ "," ^ string_of_qc b) v)))
+               (prefixes [] h) in
+           Printf.printf "merra%s\n" (String.concat "" out)
          | _ -> Printf.printf "unknown %s\n" op)
       end
     done
